@@ -14,6 +14,7 @@ import (
 	"go/token"
 	"go/types"
 	"sort"
+	"strings"
 
 	"golang.org/x/tools/go/ssa"
 )
@@ -53,11 +54,55 @@ type PathCtx struct {
 	stack []*ssa.Function
 	memo  map[memoKey][]uint64
 	alt   int // which alternative of the current edge's facts is being explored (predicate helpers)
+	// inlined analysis: the context and the call through which this function was entered
+	parent       *PathCtx
+	callSite     ssa.CallInstruction
+	inlinedCalls map[ssa.Value]bool
+}
+
+// Reserved state bits, managed by the engine: whether the error result of the most recently inlined call is
+// nil / non-nil on the current path. A rule's own bits must stay below bit 60.
+const (
+	stErrNil    uint64 = 1 << 62
+	stErrNonNil uint64 = 1 << 63
+)
+
+// Resolve maps a parameter (or the local cell a parameter was spilled into) of an inlined function to the value
+// the caller passed, transitively up the inlining stack.
+func (pc *PathCtx) Resolve(v ssa.Value) ssa.Value {
+	for cur := pc; cur != nil && cur.callSite != nil; cur = cur.parent {
+		w := v
+		if u, ok := w.(*ssa.UnOp); ok && u.Op == token.MUL {
+			if st := singleStore(u.X); st != nil {
+				w = st
+			}
+		}
+		p, ok := w.(*ssa.Parameter)
+		if !ok || p.Parent() != cur.fn {
+			return v
+		}
+		idx := -1
+		for i, q := range cur.fn.Params {
+			if q == p {
+				idx = i
+			}
+		}
+		args := cur.callSite.Common().Args
+		if cur.callSite.Common().IsInvoke() {
+			idx-- // receiver is not in Args
+		}
+		if idx < 0 || idx >= len(args) {
+			return v
+		}
+		v = args[idx]
+	}
+	return v
 }
 
 type memoKey struct {
-	fn *ssa.Function
-	s  uint64
+	fn   *ssa.Function
+	s    uint64
+	site ssa.CallInstruction // rules may resolve parameters through the call site: memoise per site
 }
 
 // Note attaches an event description to the current path node (shown in reported paths).
@@ -104,20 +149,24 @@ func (pc *PathCtx) Fn() *ssa.Function { return pc.fn }
 // RunPaths explores fn from state init; returns the set of states at normal returns.
 func (c *Ctx) RunPaths(fn *ssa.Function, init uint64, rule *PathRule) []uint64 {
 	memo := map[memoKey][]uint64{}
-	return c.runPaths(fn, init, rule, 0, nil, memo)
+	return c.runPaths(fn, init, rule, 0, nil, memo, nil, nil)
 }
 
-func (c *Ctx) runPaths(fn *ssa.Function, init uint64, rule *PathRule, depth int, stack []*ssa.Function, memo map[memoKey][]uint64) []uint64 {
+func (c *Ctx) runPaths(fn *ssa.Function, init uint64, rule *PathRule, depth int, stack []*ssa.Function, memo map[memoKey][]uint64, parent *PathCtx, site ssa.CallInstruction) []uint64 {
 	if fn == nil || len(fn.Blocks) == 0 {
 		return []uint64{init}
 	}
-	k := memoKey{fn, init}
+	k := memoKey{fn, init, site}
 	if r, ok := memo[k]; ok {
 		return r
 	}
 	c.seeFn(fn)
 	memo[k] = []uint64{init} // recursion guard: identity
-	pc := &PathCtx{c: c, rule: rule, fn: fn, par: map[pnode]pnode{}, notes: map[pnode][]string{}, depth: depth, stack: append(stack, fn), memo: memo}
+	pc := &PathCtx{c: c, rule: rule, fn: fn, par: map[pnode]pnode{}, notes: map[pnode][]string{}, depth: depth, stack: append(stack, fn), memo: memo, parent: parent, callSite: site}
+	errIdx := -1
+	if parent != nil {
+		errIdx = errResultIdx(fn.Signature)
+	}
 	maxDepth := rule.MaxDepth
 	if maxDepth == 0 {
 		maxDepth = 10
@@ -179,6 +228,17 @@ func (c *Ctx) runPaths(fn *ssa.Function, init uint64, rule *PathRule, depth int,
 					if rule.Exit != nil {
 						rule.Exit(pc, s, ins)
 					}
+					if parent != nil {
+						s &^= stErrNil | stErrNonNil
+						if errIdx >= 0 && errIdx < len(x.Results) {
+							switch errNilness(x.Results[errIdx]) {
+							case 1:
+								s |= stErrNil
+							case 2:
+								s |= stErrNonNil
+							}
+						}
+					}
 					exits[s] = true
 					terminated = true
 				case *ssa.Panic:
@@ -201,8 +261,14 @@ func (c *Ctx) runPaths(fn *ssa.Function, init uint64, rule *PathRule, depth int,
 									continue
 								}
 								inlined = true
-								for _, o := range c.runPaths(callee, s, rule, depth+1, pc.stack, memo) {
+								for _, o := range c.runPaths(callee, s&^(stErrNil|stErrNonNil), rule, depth+1, pc.stack, memo, pc, ci) {
 									next = append(next, run{o, df})
+								}
+								if pc.inlinedCalls == nil {
+									pc.inlinedCalls = map[ssa.Value]bool{}
+								}
+								if v, ok := ci.(ssa.Value); ok {
+									pc.inlinedCalls[v] = true
 								}
 							}
 							if inlined {
@@ -233,6 +299,9 @@ func (c *Ctx) runPaths(fn *ssa.Function, init uint64, rule *PathRule, depth int,
 				for k := 0; k < nAlt; k++ {
 					s := r.s
 					pc.alt = k
+					if s&(stErrNil|stErrNonNil) != 0 && pc.contradictsInlinedError(s, n.b, si) {
+						continue // the inlined callee returned a nil (non-nil) error on this path: the other side of the test is infeasible
+					}
 					if rule.Edge != nil {
 						var ok bool
 						s, ok = rule.Edge(pc, s, n.b, si)
@@ -516,4 +585,81 @@ func walkThroughPhi(succ, from *ssa.BasicBlock, facts []Fact, seen map[*ssa.Basi
 		}
 	}
 	return walk(succ, facts, seen)
+}
+
+
+// errNilness of a returned error value: 1 = certainly nil, 2 = certainly non-nil, 0 = unknown.
+func errNilness(v ssa.Value) int {
+	switch x := v.(type) {
+	case *ssa.Const:
+		if x.Value == nil {
+			return 1
+		}
+	case *ssa.MakeInterface:
+		// a concrete error value boxed into the interface: non-nil when the boxed value is a fresh pointer or a struct
+		switch y := x.X.(type) {
+		case *ssa.Alloc:
+			return 2
+		case *ssa.Call:
+			if c := y.Call.StaticCallee(); c != nil && strings.HasPrefix(c.Name(), "New") || c != nil && strings.HasPrefix(c.Name(), "new") {
+				return 2
+			}
+		default:
+			if _, isPtr := x.X.Type().Underlying().(*types.Pointer); !isPtr {
+				return 2
+			}
+		}
+	case *ssa.Call:
+		if c := x.Call.StaticCallee(); c != nil {
+			n := c.Name()
+			full := c.String()
+			if strings.HasPrefix(n, "NewErr") || strings.HasPrefix(n, "newErr") || full == "errors.New" || full == "fmt.Errorf" || strings.HasSuffix(full, "pkg/errors.New") || strings.HasSuffix(full, "pkg/errors.Errorf") {
+				return 2
+			}
+		}
+	}
+	return 0
+}
+
+// contradictsInlinedError: the edge tests the error result of a call that was analysed inline, against what the
+// callee returned on this path.
+func (pc *PathCtx) contradictsInlinedError(s uint64, from *ssa.BasicBlock, si int) bool {
+	for _, f := range edgeFacts(from, si) {
+		if !isNilConst(f.Y) {
+			continue
+		}
+		var call ssa.Value
+		switch x := f.X.(type) {
+		case *ssa.Call:
+			call = x
+		case *ssa.Extract:
+			if c, ok := x.Tuple.(*ssa.Call); ok {
+				if x.Index != errResultIdx(c.Call.Signature()) {
+					continue
+				}
+				call = c
+			}
+		}
+		if call == nil || !pc.inlinedCalls[call] || call != pc.lastInlined(from) {
+			continue
+		}
+		if f.Eq && s&stErrNonNil != 0 {
+			return true
+		}
+		if !f.Eq && s&stErrNil != 0 {
+			return true
+		}
+	}
+	return false
+}
+
+// lastInlined: the last call of block b that was analysed inline (the bits describe that call).
+func (pc *PathCtx) lastInlined(b *ssa.BasicBlock) ssa.Value {
+	var last ssa.Value
+	for _, ins := range b.Instrs {
+		if v, ok := ins.(ssa.Value); ok && pc.inlinedCalls[v] {
+			last = v
+		}
+	}
+	return last
 }
